@@ -3,7 +3,7 @@
 followed by all 19 quick checks on each copy.  Every check must stay silent (rc 0) on every copy: a non-zero rc is a defect
 of the checks (brittleness against the spelling of the code), never of the code.
 
-    tools/mechanical.py [kind ...]        kinds: unparse locals invert splitand methods attrs flags whiletrue guard ternary augassign format percent continue elsereturn flipcmp hoist match walrus tryelse bindmethods   (default: all)
+    tools/mechanical.py [kind ...]        kinds: unparse locals invert splitand methods attrs flags whiletrue guard ternary augassign format percent continue elsereturn flipcmp hoist match walrus tryelse bindmethods chained nextfind static   (default: all)
 
 Not a registered check: it exercises the checks, it decides no property."""
 import ast, os, shutil, subprocess, sys, tempfile, builtins
@@ -379,6 +379,65 @@ class BindMethods(ast.NodeTransformer):
         return f
 
 
+
+class Chained(ast.NodeTransformer):
+    """x < A or x > B  ->  not A <= x <= B      (same operand x, plain names / attributes / constants only)"""
+
+    def visit_BoolOp(self, n):
+        self.generic_visit(n)
+        if isinstance(n.op, ast.Or) and len(n.values) == 2 and all(isinstance(v, ast.Compare) and len(v.ops) == 1 for v in n.values):
+            a, b = n.values
+            simple = lambda e: isinstance(e, (ast.Name, ast.Attribute, ast.Constant))
+            if isinstance(a.ops[0], ast.Lt) and isinstance(b.ops[0], ast.Gt) and ast.unparse(a.left) == ast.unparse(b.left) and all(simple(e) for e in (a.left, a.comparators[0], b.comparators[0])):
+                return ast.UnaryOp(op=ast.Not(), operand=ast.Compare(left=a.comparators[0], ops=[ast.LtE(), ast.LtE()], comparators=[a.left, b.comparators[0]]))
+        return n
+
+
+class NextFind(ast.NodeTransformer):
+    """for v in IT: if C(v.attr ...): raise X   ->   v = next((v for v in IT if C), None); if v is not None: raise X"""
+
+    def _block(self, stmts):
+        out = []
+        for s in stmts:
+            s = self.visit(s)
+            if isinstance(s, ast.For) and not s.orelse and isinstance(s.target, ast.Name) and len(s.body) == 1 and isinstance(s.body[0], ast.If) and not s.body[0].orelse \
+                    and s.body[0].body and isinstance(s.body[0].body[-1], ast.Raise) and all(isinstance(b, (ast.Raise, ast.Expr)) for b in s.body[0].body) \
+                    and any(isinstance(n, ast.Attribute) and isinstance(n.value, ast.Name) and n.value.id == s.target.id for n in ast.walk(s.body[0].test)) \
+                    and not any(isinstance(n, (ast.Await, ast.Yield, ast.NamedExpr)) for n in ast.walk(s)):
+                v = s.target.id
+                gen = ast.GeneratorExp(elt=ast.Name(id=v, ctx=ast.Load()), generators=[ast.comprehension(target=ast.Name(id=v, ctx=ast.Store()), iter=s.iter, ifs=[s.body[0].test], is_async=0)])
+                out.append(ast.Assign(targets=[ast.Name(id=v, ctx=ast.Store())], value=ast.Call(func=ast.Name(id="next", ctx=ast.Load()), args=[gen, ast.Constant(value=None)], keywords=[])))
+                out.append(ast.If(test=ast.Compare(left=ast.Name(id=v, ctx=ast.Load()), ops=[ast.IsNot()], comparators=[ast.Constant(value=None)]), body=s.body[0].body, orelse=[]))
+                continue
+            out.append(s)
+        return out
+
+    def generic_visit(self, node):
+        for fld in ("body", "orelse", "finalbody"):
+            val = getattr(node, fld, None)
+            if isinstance(val, list) and val and isinstance(val[0], ast.stmt):
+                setattr(node, fld, self._block(val))
+        for h in getattr(node, "handlers", []) or []:
+            h.body = self._block(h.body)
+        return node
+
+
+
+class StaticMethods(ast.NodeTransformer):
+    """a method that never mentions `self` becomes a @staticmethod (calls through self / the class keep working)"""
+
+    def visit_ClassDef(self, c):
+        self.generic_visit(c)
+        # names also defined in other classes may be overridden / called through other receivers: leave those alone
+        for m in c.body:
+            if isinstance(m, ast.FunctionDef) and not m.decorator_list and m.args.args and m.args.args[0].arg == "self" and not m.name.startswith("__") \
+                    and not any(isinstance(n, ast.Name) and n.id == "self" for n in ast.walk(m)) and not any(isinstance(n, ast.Call) and isinstance(n.func, ast.Name) and n.func.id == "super" for n in ast.walk(m)) \
+                    and m.name in getattr(self, "unique", set()):
+                m.args.args = m.args.args[1:]
+                m.decorator_list = [ast.Name(id="staticmethod", ctx=ast.Load())]
+        return c
+
+
 def hoist_attrs(trees):
     """in every method: `self.<attr>` that is bound only in __init__ (never rebound anywhere in the program) and read at least
     twice is read once into a local at the top of the method (an alias of the same object)"""
@@ -530,6 +589,24 @@ def make(kind, dst):
     elif kind == "bindmethods":
         for p, t in trees.items():
             trees[p] = BindMethods().visit(t)
+    elif kind == "chained":
+        for p, t in trees.items():
+            trees[p] = Chained().visit(t)
+    elif kind == "nextfind":
+        for p, t in trees.items():
+            trees[p] = NextFind().visit(t)
+    elif kind == "static":
+        counts = {}
+        for t in trees.values():
+            for c in ast.walk(t):
+                if isinstance(c, ast.ClassDef):
+                    for m in c.body:
+                        if isinstance(m, ast.FunctionDef):
+                            counts[m.name] = counts.get(m.name, 0) + 1
+        sm = StaticMethods()
+        sm.unique = {k for k, v in counts.items() if v == 1}
+        for p, t in trees.items():
+            trees[p] = sm.visit(t)
     elif kind == "hoist":
         hoist_attrs(trees)
     elif kind == "methods":
@@ -546,7 +623,7 @@ def make(kind, dst):
 
 
 def main():
-    kinds = sys.argv[1:] or ["unparse", "locals", "invert", "splitand", "methods", "attrs", "flags", "whiletrue", "guard", "ternary", "augassign", "format", "percent", "continue", "elsereturn", "flipcmp", "hoist", "match", "walrus", "tryelse", "bindmethods"]
+    kinds = sys.argv[1:] or ["unparse", "locals", "invert", "splitand", "methods", "attrs", "flags", "whiletrue", "guard", "ternary", "augassign", "format", "percent", "continue", "elsereturn", "flipcmp", "hoist", "match", "walrus", "tryelse", "bindmethods", "chained", "nextfind", "static"]
     bad = 0
     for kind in kinds:
         tmp = tempfile.mkdtemp(prefix=f"pyrtma-mech-{kind}-")
